@@ -8,7 +8,7 @@ The parser can be invoked standalone:
 import csv
 import sys
 
-from os.path import basename
+from os.path import basename, exists
 
 from lxml import etree as ET
 from lxml.builder import E
@@ -289,6 +289,12 @@ class XMLReader(object):
                 xml_file.close()
         except ET.XMLSyntaxError as exc:
             raise ParserException(exc.msg)
+        except OSError as exc:
+            # lxml reports content it cannot decode at the start of an existing
+            # file as an I/O error; a file that is not there stays an OSError.
+            if isinstance(xml_file, str) and not exists(xml_file):
+                raise
+            raise ParserException(str(exc))
 
         self._handle_version(root)
         doc = self.parse_element(root)
